@@ -425,11 +425,15 @@ Definition ns_seeds (h : heap) (ns : Z) : list Z :=
 
 Definition seed_memo (seeds : list Z) : list (Z * Z) := map (fun o => (o, o)) seeds.
 
-Definition init_st (h : heap) (seeds : list Z) : st := mkSt h (seed_memo seeds) false [].
+(* nf: the variant of AnnotationSet.__deepcopy__ the working tree has (decided by the harness by probing the
+   library): false = `memo[id(self.target)]` raises KeyError for a target None unless None happens to be
+   memoised (the code as found); true = a target None is accepted (the code with that defect repaired).
+   The repaired form is exactly the interpreter started with `id(None) in memo`. *)
+Definition init_st (nf : bool) (h : heap) (seeds : list Z) : st := mkSt h (seed_memo seeds) nf [].
 
 (* copy.deepcopy(root, memo) with memo pre-seeded by seeds (each seed maps to itself) *)
-Definition run_seeded (fuel : nat) (h : heap) (seeds : list Z) (root : Z) : res (st * val) :=
-  dc fuel (init_st h seeds) (R root).
+Definition run_seeded (nf : bool) (fuel : nat) (h : heap) (seeds : list Z) (root : Z) : res (st * val) :=
+  dc fuel (init_st nf h seeds) (R root).
 
 Inductive route :=
 | RDeep                (* copy.deepcopy(x) / x.clone(2) *)
@@ -437,14 +441,14 @@ Inductive route :=
 | RCtor (ns : Z)       (* Tree(x) / TreeList(x) / <Type>CharacterMatrix(x): _clone_from *)
 | ROther.              (* shallow and thin routes: not modelled (oracle only) *)
 
-Definition run (fuel : nat) (h : heap) (root : Z) (r : route) : res (st * val) :=
+Definition run (nf : bool) (fuel : nat) (h : heap) (root : Z) (r : route) : res (st * val) :=
   match r with
-  | RDeep => run_seeded fuel h [] root
-  | RScoped ns => run_seeded fuel h (ns_seeds h ns) root
+  | RDeep => run_seeded nf fuel h [] root
+  | RScoped ns => run_seeded nf fuel h (ns_seeds h ns) root
   | RCtor ns =>
     (* t = copy.deepcopy(tree, memo); self.__dict__ = t.__dict__ : the constructed object is a second
        object with t's attributes (the model does not represent that the two share ONE dict) *)
-    do (s, v) <- run_seeded fuel h (ns_seeds h ns) root ;;
+    do (s, v) <- run_seeded nf fuel h (ns_seeds h ns) root ;;
     match v with
     | R t => match hget (sh s) t with
              | Some ob => let '(s1, y) := alloc s ob in Ok (s1, R y)
@@ -608,7 +612,8 @@ Record case := mkCase {
   c_expect : expect;
   c_shared : list Z;        (* objects the documentation lets both sides share (namespace, taxa, members) *)
   c_other : val;            (* root of the side that is NOT mutated afterwards *)
-  c_written : list Z        (* objects whose body the later mutation changed *)
+  c_written : list Z;       (* objects whose body the later mutation changed *)
+  c_nf : bool               (* variant of AnnotationSet.__deepcopy__ found in the working tree (see init_st) *)
 }.
 
 Definition route_seeds (h : heap) (r : route) : list Z :=
@@ -629,13 +634,13 @@ Definition case_ok (c : case) : bool :=
   | ESkip news => frame_hyp (h ++ news) c
   | EErr e =>
     wf_heap h (route_seeds h (c_route c)) &&
-    match run (fuel_for h) h (c_root c) (c_route c) with
+    match run (c_nf c) (fuel_for h) h (c_root c) (c_route c) with
     | Err e' => err_eqb e e'
     | _ => false
     end
   | EOk r' news =>
     wf_heap h (route_seeds h (c_route c)) &&
-    match run (fuel_for h) h (c_root c) (c_route c) with
+    match run (c_nf c) (fuel_for h) h (c_root c) (c_route c) with
     | Ok (s, v) => iso_check (hlen h) (sh s) (h ++ news) v r' && frame_hyp (h ++ news) c
     | _ => false
     end
@@ -643,7 +648,7 @@ Definition case_ok (c : case) : bool :=
 
 (* diagnostics for replays: what the model computed *)
 Definition case_run (c : case) : res (list obj * val) :=
-  match run (fuel_for (c_heap c)) (c_heap c) (c_root c) (c_route c) with
+  match run (c_nf c) (fuel_for (c_heap c)) (c_heap c) (c_root c) (c_route c) with
   | Ok (s, v) => Ok (skipn (length (c_heap c)) (sh s), v)
   | Err e => Err e
   | OutOfFuel => OutOfFuel
